@@ -1,12 +1,325 @@
 /-
-  Proofs/C03Replace.lean — helper lemmas for the C03 property files.
+  Proofs/C03Replace.lean — helper lemmas for Props/C03_Replace.lean (`occ`, the greedy `select`, the collecting loop
+  of `_replace`, the rebuild as a closed form of the successive splices).  Everything lives in the sub-namespace
+  `BM.C03.Replace` so that the names cannot collide with the helper files of the other C03 parts.
 -/
 import BitstringModel.Model.C03
 import BitstringModel.Proofs.C03
 import Mathlib.Tactic.Ring
 import Mathlib.Tactic.Linarith
 import Mathlib.Data.List.Basic
-namespace BM.C03
-open BM
+namespace BM.C03.Replace
+open BM BM.C03
 
-end BM.C03
+theorem occ_mem_iff' (l old : Bits) (s e : Nat) (al : Bool) (p : Nat) :
+    p ∈ occ l old s e al ↔
+      (s ≤ p ∧ p + old.length ≤ e ∧ slc l p (p + old.length) = old ∧ (al = true → p % 8 = 0)) := by
+  unfold occ matchAt
+  simp only [List.mem_filter, List.mem_map, List.mem_range, Bool.and_eq_true, beq_iff_eq, Bool.or_eq_true,
+    Bool.not_eq_true']
+  constructor
+  · rintro ⟨⟨i, hi, rfl⟩, h1, h2⟩
+    refine ⟨by omega, by omega, h1, ?_⟩
+    intro ha
+    rcases h2 with h2 | h2
+    · rw [ha] at h2; cases h2
+    · exact h2
+  · rintro ⟨h1, h2, h3, h4⟩
+    refine ⟨⟨p - s, by omega, by omega⟩, h3, ?_⟩
+    cases al
+    · left; rfl
+    · right; exact h4 rfl
+
+theorem occ_sorted' (l old : Bits) (s e : Nat) (al : Bool) : (occ l old s e al).Pairwise (· < ·) := by
+  unfold occ
+  apply List.Pairwise.filter
+  rw [List.pairwise_map]
+  exact List.Pairwise.imp (fun h => by omega) List.pairwise_lt_range
+
+theorem select_sublist' (oldLen : Nat) (b : Option Nat) (m : Nat) (xs : List Nat) :
+    (Spec.select oldLen b m xs).Sublist xs := by
+  fun_induction Spec.select oldLen b m xs with
+  | case1 => exact List.Sublist.slnil
+  | case2 => exact List.nil_sublist _
+  | case3 b m x xs hb hm ih => exact List.Sublist.cons_cons _ ih
+  | case4 b m x xs hb hm ih => exact List.Sublist.cons _ ih
+
+theorem select_ge (oldLen : Nat) (b : Option Nat) (m : Nat) (xs : List Nat) :
+    ∀ p ∈ Spec.select oldLen b m xs, m ≤ p := by
+  fun_induction Spec.select oldLen b m xs with
+  | case1 => simp
+  | case2 => simp
+  | case3 b m x xs hb hm ih =>
+    intro p hp
+    rw [List.mem_cons] at hp
+    rcases hp with rfl | hp
+    · exact hm
+    · have := ih p hp; omega
+  | case4 b m x xs hb hm ih => exact ih
+
+theorem select_pairwise (oldLen : Nat) (b : Option Nat) (m : Nat) (xs : List Nat) :
+    (Spec.select oldLen b m xs).Pairwise (fun p q => p + oldLen ≤ q) := by
+  fun_induction Spec.select oldLen b m xs with
+  | case1 => exact List.Pairwise.nil
+  | case2 => exact List.Pairwise.nil
+  | case3 b m x xs hb hm ih =>
+    rw [List.pairwise_cons]
+    exact ⟨select_ge _ _ _ _, ih⟩
+  | case4 b m x xs hb hm ih => exact ih
+
+theorem select_le_budget' (oldLen c m : Nat) (xs : List Nat) : (Spec.select oldLen (some c) m xs).length ≤ c := by
+  induction xs generalizing c m with
+  | nil => simp [Spec.select]
+  | cons x xs ih =>
+    cases c with
+    | zero => simp [Spec.select]
+    | succ c =>
+      rw [Spec.select]
+      · split
+        · simp only [Option.map_some, List.length_cons, Nat.add_sub_cancel]
+          have := ih c (x + oldLen)
+          omega
+        · have := ih (c + 1) m
+          omega
+      · simp
+
+
+/-! ### equations of `select` -/
+
+theorem select_nil (oldLen : Nat) (b : Option Nat) (m : Nat) : Spec.select oldLen b m [] = [] := by
+  simp [Spec.select]
+
+theorem select_zero (oldLen m : Nat) (xs : List Nat) : Spec.select oldLen (some 0) m xs = [] := by
+  cases xs <;> simp [Spec.select]
+
+theorem select_cons_none (oldLen m x : Nat) (xs : List Nat) :
+    Spec.select oldLen none m (x :: xs) =
+      if m ≤ x then x :: Spec.select oldLen none (x + oldLen) xs else Spec.select oldLen none m xs := by
+  rw [Spec.select]
+  · rfl
+  · simp
+
+theorem select_cons_succ (oldLen k m x : Nat) (xs : List Nat) :
+    Spec.select oldLen (some (k + 1)) m (x :: xs) =
+      if m ≤ x then x :: Spec.select oldLen (some k) (x + oldLen) xs else Spec.select oldLen (some (k + 1)) m xs := by
+  rw [Spec.select]
+  · rfl
+  · simp
+
+theorem select_maximal' (oldLen : Nat) (m : Nat) (xs : List Nat) (hs : xs.Pairwise (· < ·))
+    (x : Nat) (hx : x ∈ xs) (hm : m ≤ x) (hnot : x ∉ Spec.select oldLen none m xs) :
+    ∃ p ∈ Spec.select oldLen none m xs, p < x ∧ x < p + oldLen := by
+  induction xs generalizing m with
+  | nil => cases hx
+  | cons y ys ih =>
+    rw [List.pairwise_cons] at hs
+    rw [select_cons_none] at hnot ⊢
+    by_cases hmy : m ≤ y
+    · rw [if_pos hmy] at hnot ⊢
+      rw [List.mem_cons, not_or] at hnot
+      rw [List.mem_cons] at hx
+      rcases hx with rfl | hx
+      · exact absurd rfl hnot.1
+      · have hyx := hs.1 x hx
+        by_cases hov : x < y + oldLen
+        · exact ⟨y, List.mem_cons_self, hyx, hov⟩
+        · obtain ⟨p, hp, h1, h2⟩ := ih (y + oldLen) hs.2 hx (by omega) hnot.2
+          exact ⟨p, List.mem_cons_of_mem _ hp, h1, h2⟩
+    · rw [if_neg hmy] at hnot ⊢
+      rw [List.mem_cons] at hx
+      rcases hx with rfl | hx
+      · omega
+      · exact ih m hs.2 hx hm hnot
+
+/-! ### the collecting loop -/
+
+theorem collect_nil (oldLen : Nat) (cnt : Int) (sp : List Nat) : Alg.collect oldLen cnt [] sp = sp := by
+  simp [Alg.collect]
+
+theorem collect_cons_some (oldLen : Nat) (cnt : Int) (x : Nat) (xs sp : List Nat) (last : Nat)
+    (hl : sp.getLast? = some last) :
+    Alg.collect oldLen cnt (x :: xs) sp =
+      if last + oldLen ≤ x then
+        (if cnt ≠ 0 ∧ ((sp ++ [x]).length : Int) = cnt then sp ++ [x] else Alg.collect oldLen cnt xs (sp ++ [x]))
+      else
+        (if cnt ≠ 0 ∧ (sp.length : Int) = cnt then sp else Alg.collect oldLen cnt xs sp) := by
+  rw [Alg.collect]
+  simp only [hl, ge_iff_le]
+  split <;> rfl
+
+theorem collect_cons_nil (oldLen : Nat) (cnt : Int) (x : Nat) (xs : List Nat) :
+    Alg.collect oldLen cnt (x :: xs) [] =
+      if cnt ≠ 0 ∧ (1 : Int) = cnt then [x] else Alg.collect oldLen cnt xs [x] := by
+  rw [Alg.collect]
+  simp
+
+/-- no limit (`count` is `None`, i.e. 0, or negative). -/
+theorem collect_unbounded (oldLen : Nat) (cnt : Int) (hc : cnt ≤ 0) (xs sp : List Nat) (last : Nat)
+    (hl : sp.getLast? = some last) :
+    Alg.collect oldLen cnt xs sp = sp ++ Spec.select oldLen none (last + oldLen) xs := by
+  induction xs generalizing sp last with
+  | nil => rw [collect_nil, select_nil, List.append_nil]
+  | cons x xs ih =>
+    rw [collect_cons_some oldLen cnt x xs sp last hl, select_cons_none]
+    have h1 : ¬ (cnt ≠ 0 ∧ ((sp ++ [x]).length : Int) = cnt) := by
+      rintro ⟨h0, h1⟩; omega
+    have h2 : ¬ (cnt ≠ 0 ∧ (sp.length : Int) = cnt) := by
+      rintro ⟨h0, h1⟩; omega
+    rw [if_neg h1, if_neg h2]
+    by_cases hx : last + oldLen ≤ x
+    · rw [if_pos hx, if_pos hx, ih (sp ++ [x]) x (by simp)]
+      simp
+    · rw [if_neg hx, if_neg hx, ih sp last hl]
+
+/-- a positive limit `c`, not yet reached. -/
+theorem collect_bounded (oldLen : Nat) (c : Nat) (xs sp : List Nat) (last : Nat)
+    (hl : sp.getLast? = some last) (hlt : sp.length < c) :
+    Alg.collect oldLen (c : Int) xs sp = sp ++ Spec.select oldLen (some (c - sp.length)) (last + oldLen) xs := by
+  induction xs generalizing sp last with
+  | nil => rw [collect_nil, select_nil, List.append_nil]
+  | cons x xs ih =>
+    obtain ⟨k, hk⟩ : ∃ k, c - sp.length = k + 1 := ⟨c - sp.length - 1, by omega⟩
+    rw [collect_cons_some oldLen c x xs sp last hl, hk, select_cons_succ]
+    have h2 : ¬ ((c : Int) ≠ 0 ∧ (sp.length : Int) = (c : Int)) := by
+      rintro ⟨h0, h1⟩; omega
+    rw [if_neg h2]
+    by_cases hx : last + oldLen ≤ x
+    · rw [if_pos hx, if_pos hx]
+      by_cases hfull : sp.length + 1 = c
+      · have hk0 : k = 0 := by omega
+        rw [if_pos ⟨by omega, by simp; omega⟩, hk0, select_zero]
+      · rw [if_neg (by rintro ⟨h0, h1⟩; simp at h1; omega),
+          ih (sp ++ [x]) x (by simp) (by simp; omega)]
+        have : c - (sp ++ [x]).length = k := by simp; omega
+        rw [this]
+        simp
+    · rw [if_neg hx, if_neg hx, ih sp last hl hlt, hk]
+
+theorem budget_cases (count : Option Int) (hc : count ≠ some 0) :
+    (Spec.budget count = none ∧ count.getD 0 ≤ 0) ∨
+    (∃ c : Nat, 0 < c ∧ Spec.budget count = some c ∧ count.getD 0 = (c : Int)) := by
+  cases count with
+  | none => left; simp [Spec.budget]
+  | some v =>
+    by_cases hv : v < 0
+    · left; simp [Spec.budget, hv]; omega
+    · right
+      refine ⟨v.toNat, ?_, by simp [Spec.budget, hv], by simp; omega⟩
+      have : v ≠ 0 := fun h => hc (by rw [h])
+      omega
+
+theorem collect_eq_select' (oldLen : Nat) (count : Option Int) (hc : count ≠ some 0) (xs : List Nat) :
+    Alg.collect oldLen (count.getD 0) xs [] = Spec.select oldLen (Spec.budget count) 0 xs := by
+  cases xs with
+  | nil => rw [collect_nil, select_nil]
+  | cons x xs =>
+    rw [collect_cons_nil]
+    rcases budget_cases count hc with ⟨hb, hle⟩ | ⟨c, hpos, hb, hcnt⟩
+    · rw [hb, select_cons_none, if_pos (Nat.zero_le _), if_neg (by rintro ⟨h0, h1⟩; omega),
+        collect_unbounded oldLen _ hle xs [x] x (by simp)]
+      simp
+    · rw [hb, hcnt]
+      obtain ⟨k, rfl⟩ : ∃ k, c = k + 1 := ⟨c - 1, by omega⟩
+      rw [select_cons_succ, if_pos (Nat.zero_le _)]
+      by_cases hk : k = 0
+      · subst hk
+        rw [if_pos ⟨by omega, by simp⟩, select_zero]
+      · rw [if_neg (by rintro ⟨h0, h1⟩; omega), collect_bounded oldLen (k + 1) xs [x] x (by simp) (by simp; omega)]
+        simp
+
+
+/-! ### the rebuild -/
+
+theorem spliceAll_nil (l : Bits) (oldLen : Nat) (new : Bits) : Spec.spliceAll l oldLen new [] = l := rfl
+
+theorem spliceAll_cons (l : Bits) (oldLen : Nat) (new : Bits) (p : Nat) (ps : List Nat) :
+    Spec.spliceAll l oldLen new (p :: ps) =
+      (Spec.spliceAll l oldLen new ps).take p ++ new ++ (Spec.spliceAll l oldLen new ps).drop (p + oldLen) := rfl
+
+/-- closed form of the successive splices at ascending non-overlapping in-range positions. -/
+theorem spliceAll_closed (l new : Bits) (oldLen : Nat) (p0 : Nat) (rest : List Nat)
+    (hno : (p0 :: rest).Pairwise (fun p q => p + oldLen ≤ q)) (hin : ∀ p ∈ p0 :: rest, p + oldLen ≤ l.length) :
+    Spec.spliceAll l oldLen new (p0 :: rest) = l.take p0 ++ Alg.rebuildTail l oldLen new p0 rest := by
+  induction rest generalizing p0 with
+  | nil => simp [spliceAll_cons, spliceAll_nil, Alg.rebuildTail]
+  | cons p1 ps ih =>
+    rw [List.pairwise_cons] at hno
+    have h01 : p0 + oldLen ≤ p1 := hno.1 p1 List.mem_cons_self
+    have h1 : p1 + oldLen ≤ l.length := hin p1 (List.mem_cons_of_mem _ List.mem_cons_self)
+    rw [spliceAll_cons, ih p1 hno.2 (fun p hp => hin p (List.mem_cons_of_mem _ hp))]
+    have hlen : (l.take p1).length = p1 := by rw [List.length_take]; omega
+    rw [List.take_append_of_le_length (by omega), List.drop_append_of_le_length (by omega),
+      List.take_take, List.drop_take, Nat.min_eq_left (by omega)]
+    simp only [Alg.rebuildTail, slc, List.append_assoc]
+
+/-- length bookkeeping of the rebuilt tail. -/
+theorem rebuildTail_length (l new : Bits) (oldLen : Nat) (p0 : Nat) (rest : List Nat)
+    (hno : (p0 :: rest).Pairwise (fun p q => p + oldLen ≤ q)) (hin : ∀ p ∈ p0 :: rest, p + oldLen ≤ l.length) :
+    (Alg.rebuildTail l oldLen new p0 rest).length + (rest.length + 1) * oldLen + p0 =
+      l.length + (rest.length + 1) * new.length := by
+  induction rest generalizing p0 with
+  | nil =>
+    have := hin p0 List.mem_cons_self
+    simp [Alg.rebuildTail]; omega
+  | cons p1 ps ih =>
+    rw [List.pairwise_cons] at hno
+    have h01 : p0 + oldLen ≤ p1 := hno.1 p1 List.mem_cons_self
+    have h1 : p1 + oldLen ≤ l.length := hin p1 (List.mem_cons_of_mem _ List.mem_cons_self)
+    have := ih p1 hno.2 (fun p hp => hin p (List.mem_cons_of_mem _ hp))
+    simp only [Alg.rebuildTail, List.length_append, List.length_cons, slc_length_of_le l _ p1 (by omega)]
+    rw [Nat.add_mul (ps.length + 1) 1 oldLen, Nat.add_mul (ps.length + 1) 1 new.length]
+    omega
+
+/-- the rebuilt tail ends with everything from `z` on, for any `z` at or after the last replaced block. -/
+theorem rebuildTail_suffix (l new : Bits) (oldLen : Nat) (z : Nat) (p0 : Nat) (rest : List Nat)
+    (hin : ∀ p ∈ p0 :: rest, p + oldLen ≤ z) :
+    ∃ pre, Alg.rebuildTail l oldLen new p0 rest = pre ++ l.drop z := by
+  induction rest generalizing p0 with
+  | nil =>
+    have h0 := hin p0 List.mem_cons_self
+    refine ⟨new ++ slc l (p0 + oldLen) z, ?_⟩
+    have : l.drop z = (l.drop (p0 + oldLen)).drop (z - (p0 + oldLen)) := by
+      rw [List.drop_drop]; congr 1; omega
+    rw [Alg.rebuildTail, List.append_assoc, this, slc, List.take_append_drop]
+  | cons p1 ps ih =>
+    obtain ⟨pre, hpre⟩ := ih p1 (fun p hp => hin p (List.mem_cons_of_mem _ hp))
+    exact ⟨new ++ slc l (p0 + oldLen) p1 ++ pre, by rw [Alg.rebuildTail, hpre]; simp only [List.append_assoc]⟩
+
+/-! ### facts about the selection made by `replace` -/
+
+theorem sel_facts (l old : Bits) (a z : Nat) (al : Bool) (b : Option Nat) :
+    (Spec.select old.length b 0 (occ l old a z al)).Pairwise (fun p q => p + old.length ≤ q) ∧
+    ∀ p ∈ Spec.select old.length b 0 (occ l old a z al), a ≤ p ∧ p + old.length ≤ z := by
+  refine ⟨select_pairwise _ _ _ _, ?_⟩
+  intro p hp
+  have := (occ_mem_iff' l old a z al p).mp ((select_sublist' _ _ _ _).subset hp)
+  exact ⟨this.1, this.2.1⟩
+
+/-- `Spec.replace`, inverted. -/
+theorem replace_ok {l old new r : Bits} {s e : Option Int} {count : Option Int} {al : Bool} {k : Nat}
+    (h : Spec.replace l old new s e count al = .ok (k, r)) :
+    old.length ≠ 0 ∧ ∃ a z, validateSlice l.length s e = .ok (a, z) ∧
+      k = (Spec.select old.length (Spec.budget count) 0 (occ l old a z al)).length ∧
+      r = Spec.spliceAll l old.length new (Spec.select old.length (Spec.budget count) 0 (occ l old a z al)) := by
+  unfold Spec.replace at h
+  split at h
+  · cases h
+  · rename_i ho
+    refine ⟨ho, ?_⟩
+    split at h
+    · cases h
+    · rename_i a z hv
+      simp only [Except.ok.injEq, Prod.mk.injEq] at h
+      exact ⟨a, z, hv, h.1.symm, h.2.symm⟩
+
+theorem replace_of_ok (l old new : Bits) (s e : Option Int) (count : Option Int) (al : Bool) (a z : Nat)
+    (ho : old ≠ []) (hv : validateSlice l.length s e = .ok (a, z)) :
+    Spec.replace l old new s e count al =
+      .ok ((Spec.select old.length (Spec.budget count) 0 (occ l old a z al)).length,
+        Spec.spliceAll l old.length new (Spec.select old.length (Spec.budget count) 0 (occ l old a z al))) := by
+  unfold Spec.replace
+  have : old.length ≠ 0 := by
+    intro h; exact ho (List.length_eq_zero_iff.mp h)
+  rw [if_neg this, hv]
+
+end BM.C03.Replace
